@@ -24,7 +24,7 @@ RULE = ("cases = lattice (chains 2-4 sites periodic/open, 2x2 grid; optional sit
         "probabilities; non-trivial = no constraint/clip active and every measured probability strictly "
         "inside (1e-6, 1-1e-6) for fieldsum, |ratio| > 1e-3 pairs judged for pairs, at least one walker alive "
         "for fastslow; distinct = distinct case descriptor")
-MIN_NONTRIVIAL = {"quick": 30, "thorough": 300}
+MIN_NONTRIVIAL = {"quick": 30, "thorough": 250}
 TIMEOUT = {"quick": 900, "thorough": 5400}
 ASSUMPTIONS = [
     "n_sites <= 4 (Fock dimension 256) for the exhaustive field sums",
